@@ -6,28 +6,28 @@ ROOT = os.path.dirname(os.path.dirname(os.path.abspath(__file__)))
 
 CHECKS = {
  "C01": ("stateless exhaustive program-space exploration of the real Compile/Eval against reference evaluator R1",
-         "All CORE programs <=7 (thorough 8) nodes and RICH programs <=6 (7) nodes, optimisations off, x variable-registration modes x event modes x alias spellings x every binding incl. fetch failures, plus every builtin/alias x every operand tuple of arity 0..3; value, error identity and ordered fetch/operator trace compared with a recursive reference evaluator on every execution.",
+         "All CORE programs <=7 (thorough 8) nodes and RICH programs <=6 (7) nodes plus repeated-variable variants, wide order-sensitive operators and hand-written extras, optimisations off, x variable-registration modes x event modes x alias spellings x every binding incl. fetch failures, plus every builtin/alias x every operand tuple of arity 0..3; value, error identity and ordered fetch/operator trace compared with a recursive reference evaluator on every execution.",
          "Small-scope hypothesis on tree size; the reference evaluator is the documented semantics; value alphabets {true,false},{0,1} plus sentinel failures.", "4 C01"),
  "C06": ("exhaustive enumeration of source texts (token sequences, character strings, mutations of valid programs) executed on the real Compile/Eval/TryEval/Dump/DumpTable under a panic fence and hang watchdog",
-         "Every token sequence <=5 (thorough 6) over 22 tokens and every character string <=5 (7) over 17 characters x {prefix,infix} x {undefined variables off,on}, every truncation/deletion/duplication/swap of every valid corpus program, scaled shapes; every text that compiles is dumped and evaluated (Eval, TryEval cached/uncached) under bindings of every supported type in all event modes; oracle: no panic, one of (program,error), LOOP positions strictly increase.",
+         "Every token sequence <=5 (thorough 6) over 22 tokens, focused alphabets up to 7 (8) tokens and every character string <=5 (7) over 18 characters x {prefix,infix} x {undefined variables off,on}, every truncation/deletion/duplication/swap of every valid corpus program, scaled shapes; every text that compiles is dumped and evaluated (Eval, TryEval cached/uncached) under bindings of every supported type in all event modes; oracle: no panic, one of (program,error), LOOP positions strictly increase.",
          "Texts longer than the bounds are covered only through mutations of valid programs and a handful of scaled shapes; hangs are caught by a 180 s no-progress watchdog.", "4 C06"),
  "C02": ("stateless exhaustive exploration of programs x all 16 optimisation subsets x cost maps x directive spellings x bindings on the real compiler/evaluator, cross-configuration and reference (R1/R3) agreement",
-         "Every CORE <=7 / RICH <=6 program (thorough 7/7) incl. alias spellings under the 16 subsets x events off/on, 8 extreme cost maps on the Reordering subsets and 5 in-source directive spellings per subset (Dump+DumpTable must equal the programmatic compilation, caller options untouched), evaluated under every value binding: all value-returning configurations agree; total-evaluation success forces that value everywhere; Reordering-off configurations return the left-to-right value whenever it exists.",
+         "Every CORE <=7 / RICH <=6 program (thorough 7/7) incl. alias spellings, repeated-variable variants and extras under the 16 subsets x events off/on and in undefined-variable mode, 8 extreme cost maps on the Reordering subsets and 5 in-source directive spellings per subset (Dump+DumpTable must equal the programmatic compilation, caller options untouched), evaluated under every value binding: all value-returning configurations agree; total-evaluation success forces that value everywhere; Reordering-off configurations return the left-to-right value whenever it exists.",
          "Small-scope hypothesis; cost maps from a fixed family of extreme maps; bindings over {true,false},{0,1}.", "4 C02"),
  "C03": ("stateless exhaustive exploration; ordered effect trace of the real evaluator (fetcher Get + registered operator calls) compared with reference evaluation of the parsed Dump tree",
-         "Every CORE <=7 / RICH <=6 program (thorough 8/7) incl. alias spellings x 16 subsets x events off/on x every binding incl. fetch failures: the ordered log of fetches and registered-operator calls (arguments, results, failures) equals left-to-right short-circuit evaluation of the tree Dump shows; only the FastEvaluation two-leaf pairing is tolerated (all per-node choices enumerated).",
+         "Every CORE <=7 / RICH <=6 program (thorough 8/7) incl. alias spellings, repeated variables and extras x 16 subsets x events off/on/undefined-variable mode x every binding incl. fetch failures (Eval, and TryEval with everything available): the ordered log of fetches and registered-operator calls (arguments, results, failures) equals left-to-right short-circuit evaluation of the tree Dump shows; only the FastEvaluation two-leaf pairing is tolerated (all per-node choices enumerated).",
          "Independent Dump reader trusted on plain literals; effects of builtin operators are not observable (they are pure), so only fetches and registered operators are traced.", "4 C03"),
  "C04": ("stateless exhaustive exploration of programs x configurations x availability splits x assignments; TryEval answers checked against a table of real Eval results over every completion",
-         "Every CORE <=7 / RICH <=6 program (thorough +ill-typed completions) x 16 subsets x events off/on x all 2^k availability splits x all assignments: a definite TryEval answer equals Eval on every completion where Eval succeeds, equals Eval when everything is available, is stable under larger splits, and no unavailable variable is ever fetched.",
+         "Every CORE <=7 / RICH <=6 program (thorough CORE <=8, +ill-typed completions) x 16 subsets x events off/on x all 2^k availability splits x all assignments incl. non-canonical int and nil, each TryEval also on a reused Ctx and through embedding fetchers: a definite TryEval answer equals Eval on every completion where Eval succeeds, equals Eval when everything is available, is stable under larger splits, and no unavailable variable is ever fetched.",
          "Small-scope hypothesis; value domains {true,false},{0,1} (+ one ill-typed value per variable in thorough).", "4 C04"),
  "C05": ("stateless exhaustive exploration against a strong-Kleene three-valued reference evaluator (R2)",
          "Same space as C04 restricted to failure-free pairs: whenever Kleene evaluation is definite TryEval returns exactly that value; otherwise DNE (or an Eval-confirmed value), never an error; TryEvalBool mirrors with ErrDNE.",
          "Small-scope hypothesis; R2 is the reference three-valued semantics.", "4 C05"),
  "C07": ("controlled cooperative scheduler + DFS over all thread interleavings up to a preemption bound (iterative context bounding) and exhaustive enumeration of sequential call histories, on the real Expr",
-         "11 shared compiled programs covering every evaluator branch; every sequential history of {Eval x bindings, TryEval x splits, Dump, DumpTable} up to depth 4 (5), and every interleaving of 2x1, 2x2 and 3x1 thread/call shapes up to 3/2 (5/3) preemptions with scheduling points at every fetcher/operator callback and call boundary: each call's outcome (value, error, ordered trace, argument stability across a yield) equals its isolated outcome and the public view of the program never changes; auxiliary free-running race-detector pass.",
+         "13 shared compiled programs covering every evaluator branch incl. a re-entrant operator; every sequential history of {Eval x bindings, TryEval x splits, Dump, DumpTable} up to depth 4 (5), and every interleaving of 2x1, 2x2 and 3x1 thread/call shapes up to 3/2 (5/3) preemptions with scheduling points at every fetcher/operator callback and call boundary: each call's outcome (value, error, ordered trace, argument stability across a yield) equals its isolated outcome and the public view of the program never changes; auxiliary free-running race-detector pass.",
          "Scheduling granularity is the environment callback; sub-callback races are left to the race-detector pass and the post-call program comparison; preemption-bounded, not all schedules.", "4 C07"),
  "C08": ("exhaustive enumeration of Compile / copy call histories over shared caller configs plus controlled-scheduler exploration of concurrent Compile calls, on the real code",
-         "Three caller configs x 11 sources: every history of Compile(config_i, source_j) up to depth 3 (4) leaves every config's public contents unchanged and yields the same program (error text / Dump / DumpTable / behaviour) as the same call made first on fresh equal configs; every CopyConfig/ExtendConf chain up to depth 3 followed by every single mutation on either side leaves the other side unchanged; every interleaving of 2 (unbounded) and 3 (preemption bound 2 / 4) concurrent Compile calls at the stateless-operator callbacks; auxiliary race-detector pass.",
+         "Three caller configs x 15 sources, isolated baselines taken in fresh processes: every history of Compile(config_i, source_j) up to depth 3 (4) leaves every config's public contents unchanged and yields the same program (error text / Dump / DumpTable / behaviour) as the same call made first on fresh equal configs; every CopyConfig/ExtendConf chain up to depth 3 followed by every single mutation on either side leaves the other side unchanged; every interleaving of 2 (unbounded) and 3 (preemption bound 2 / 4) concurrent Compile calls at the stateless-operator callbacks; auxiliary race-detector pass.",
          "Config contents are drawn from three hand-built configs; scheduling points inside Compile exist only at callbacks into the environment.", "4 C08"),
  "C12": ("stateless exhaustive program-space exploration with events read after the evaluation, plus controlled-scheduler enumeration of consumer timings",
          "Every program <=6 (7) nodes over an alphabet with unary/binary/ternary registered operators x 16 subsets x {ReportEvent, Debug} x every binding incl. failures x {Eval, TryEval}: results and Dump equal the event-free compilation; OP_EXEC events of registered operators equal the harness's call log, those of builtins equal R1's application sequence on the Dump tree, every event is truthful, LOOP positions strictly increase, no two events share slice memory; consumer thread under the scheduler takes events at every callback point (preemption bound 4 / 8): contents never depend on timing and never change after delivery.",
@@ -42,7 +42,7 @@ CHECKS = {
          "All injective pre-populations of <=3 names over 9 boundary keys, all registration orders of 4 names (BFS to fixpoint), scaled families 1..n (+hole) for n up to 70 and around 128/256 (thorough: every n<=300 and 4096/32766): returned key = stored key, injective, no reassignment; every complete layout x undefined-mode off/on evaluates the positional expression correctly through NewCtxFromVars, both fetcher constructors and package-level Eval with ExtendConf and unrelated extra bindings; RegVarAndOp under 200 map orders; every convertible Go type under 7 key positions.",
          "Keys drawn from a boundary alphabet of the int16 range.", "4 C11"),
  "C13": ("exhaustive enumeration of literal contents and small programs, Dump -> Compile -> Dump round trip on the real code",
-         "Every string <=2 (3) over 14 nasty characters and boundary ints as literal, list element and ConstantMap constant in 7-8 contexts, and every CORE/RICH program <=5 (6) nodes, x 16 subsets x 3 event modes: Dump text recompiles under the same names, the recompiled program agrees with the original on every binding, and Dump of the unoptimised recompilation is the same text.",
+         "Every string <=2 (3) over 20 nasty characters, marker words (fi, if, DNE, ...), long list literals and boundary ints as literal, list element and ConstantMap constant in 7-8 contexts, and every CORE/RICH program <=5 (6) nodes, x 16 subsets x 3 event modes: Dump text recompiles under the same names, the recompiled program agrees with the original on every binding, and Dump of the unoptimised recompilation is the same text.",
          "String literals never contain a double quote (the lexer cannot produce one).", "4 C13"),
  "C14": ("exhaustive enumeration of re-layouts (separator assignment per token gap, deviation-bounded for long sources) and of formatter inputs, against the real lexer/parser/formatter with an independent tokenizer as oracle",
          "Every tree <=4 (5) nodes with nasty string/list literals, prefix and infix: every assignment of 8 separators (none/blank/newline/tab/U+00A0/U+2028/comment/comment with parens+quote) to every gap for short sources, <=2 (3) deviations otherwise; directives honoured before and ignored after the first token; IndentByParentheses applied 1..3 times to layout samples and to every lexable character string <=5 (6) over 17 characters keeps the token/comment sequence and the compiled program.",
@@ -51,7 +51,7 @@ CHECKS = {
          "All trees <=5 (6) nodes over one operator per precedence class incl. non-commutative ones, !, calls, if, lists and 7 atoms; all shapes <=7 (9) nodes over one atom; all 16 binary spellings <=4 (5): infix renderings with minimal / full / redundant parentheses and glued spacing compile to the same Dump and DumpTable as the prefix form and evaluate identically.",
          "The minimal-parentheses renderer encodes the statement's precedence table and left associativity; nested unary ! operands are parenthesised.", "4 C15"),
  "C16": ("exhaustive enumeration of programs x single-entry cost maps x all pairs of maps differing in one entry; order laws checked on the parsed Dump trees of the real compiler",
-         "Every and/or/not/if/compare tree <=6 (7) nodes with distinct variables plus wide and/or nodes of 2..40 operands (flat and flattened): each variable/operator name and the class defaults priced at every rung of {-100,0,0.5,5,1e3,1e9}, alone and next to one other priced name, other optimisations off/on: Reordering only permutes and/or operand lists, equal-shape siblings keep source order, raising an entry never promotes a mentioning operand over a non-mentioning one, 1e9 puts mentioning operands last, bystanders keep their relative order.",
+         "Every and/or/not/if/compare tree <=6 (8) nodes with distinct variables and constants, division-bearing operands, plus wide and/or nodes of 2..40 operands (flat and flattened): each variable/operator name and the class defaults priced at every rung of {-100,0,0.5,5,1e3,1e9}, alone and next to one other priced name, other optimisations off/on: Reordering only permutes and/or operand lists, equal-shape siblings keep source order, raising an entry never promotes a mentioning operand over a non-mentioning one, 1e9 puts mentioning operands last, bystanders keep their relative order.",
          "Ladder of 6 cost values; NaN/infinite costs are judged for meaning under C02 only.", "4 C16"),
  "C17": ("exhaustive enumeration of list pairs with padding families across the 100-element switch, on the real operators via Compile/Eval against a map-based set oracle",
          "Every pair of lists <=3 over a 3-element universe for both element types, unpadded and padded (front/back/around/both) to totals {98,99,100,101,150} (thorough adds 50..1000) with either side longer, literal/variable forms, options on/off; every probe for `in` against literal, variable and pre-built set; typed-empty lists, the empty literal and every type mismatch; symmetry of overlap.",
